@@ -1,7 +1,8 @@
-//! C03 engine (not yet built).
-use crate::common::{CaseWriter, Opts};
+//! C03 — call-by-need: the C01 generator with `std.trace` labels planted at memoised positions
+//! (locals, arguments, array elements, object fields) and error bombs in unneeded positions; the
+//! multiset of trace labels must equal the one of the call-by-need definitional interpreter.
+use crate::common::Opts;
 
 pub fn run(opts: &Opts) {
-	let w = CaseWriter::new(&opts.out);
-	w.finish(serde_json::json!({"engine":"c03","cases":0,"rule":"stub"}), &opts.out);
+	super::c01::run_engine(opts, true);
 }
